@@ -23,6 +23,9 @@ pub enum Step {
     Get { p: u8, name: u8 },
     List { p: u8 },
     DeleteProblem { p: u8, name: u8 },
+    /// add a problem whose Complete solve takes long, start solving it and do NOT wait: the task
+    /// is in flight while other persons act
+    SlowSolve { p: u8, name: u8 },
 }
 
 impl Step {
@@ -38,7 +41,8 @@ impl Step {
             | Step::Solve { p, .. }
             | Step::Get { p, .. }
             | Step::List { p }
-            | Step::DeleteProblem { p, .. } => *p,
+            | Step::DeleteProblem { p, .. }
+            | Step::SlowSolve { p, .. } => *p,
         }) as usize
     }
 }
@@ -76,6 +80,8 @@ struct World<'a> {
     session: Vec<Option<String>>,
     counter: u64,
     passwords_seen: Vec<String>,
+    /// solve tasks started without waiting: (person, problem name, strategy)
+    inflight: Vec<(usize, String, Strat)>,
 }
 
 impl<'a> World<'a> {
@@ -227,11 +233,13 @@ fn c17_check(c: &UserCase, st: &mut Stats) -> CheckResult {
         session: vec![None, None, None],
         counter: 0,
         passwords_seen: Vec::new(),
+        inflight: Vec::new(),
     };
     let persons = (c.persons as usize).clamp(2, 3);
     let mut same_name_two_owners = false;
     let mut cross_after_change = false;
     let mut changed_by: Option<usize> = None;
+    let mut foreign_inflight_seen = false;
     for (i, step) in c.steps.iter().enumerate() {
         let p = step.person() % persons;
         let what = format!("step {i} {step:?} (person {p}, session {:?})", w.session[p]);
@@ -240,7 +248,72 @@ fn c17_check(c: &UserCase, st: &mut Stats) -> CheckResult {
                 cross_after_change = true;
             }
         }
+        // a person first waits for the tasks it started itself; other persons do not wait
+        let mine: Vec<(usize, String, Strat)> = w.inflight.iter().filter(|x| x.0 == p).cloned().collect();
+        for (_, pname, s) in mine {
+            poll_slot(&w.cl, &mut w.jars[p], &pname, s.slot(), &json!({"type": "Solve", "content": s.name()}))?;
+            if let Some(id) = w.session[p].clone() {
+                if let Some(pr) = w.accounts.get_mut(&id).and_then(|a| a.problems.get_mut(&pname)) {
+                    pr.solved.insert(s);
+                }
+            }
+            w.inflight.retain(|x| !(x.0 == p && x.1 == pname));
+        }
         match step {
+            Step::SlowSolve { name, .. } => {
+                let pname = PROBLEM_NAMES[(*name % 3) as usize].to_string();
+                let Some(id) = w.session[p].clone() else {
+                    continue; // only for logged-in persons (anonymous adds are covered by Add)
+                };
+                if w.accounts[&id].problems.contains_key(&pname) {
+                    continue;
+                }
+                w.counter += 1;
+                let m = format!("{}{}", w.marker(p), w.counter);
+                let k = 9;
+                let mut code = format!("s({m}).ac({m},c(v)).");
+                for i in 0..k {
+                    code.push_str(&format!("s(y{i}).ac(y{i},neg(y{})).", (i + 1) % k));
+                }
+                let r = w.cl.multipart(&mut w.jars[p], "/adf/add", &[("name", &pname), ("code", &code), ("parsing", "Naive")])?;
+                expect_status(&r, true, &what)?;
+                w.accounts.get_mut(&id).unwrap().problems.insert(pname.clone(), Prob { code, solved: BTreeSet::new() });
+                poll_slot(&w.cl, &mut w.jars[p], &pname, "parse_only", &json!({"type": "Parse"}))?;
+                let r = w.cl.json(&mut w.jars[p], "PUT", &format!("/adf/{pname}/solve"), &json!({"strategy": "Complete"}))?;
+                expect_status(&r, true, &what)?;
+                w.inflight.push((p, pname.clone(), Strat::Complete));
+                // while the task is in flight every other person looks at its own data
+                for q in 0..persons {
+                    if q == p || w.session[q].is_none() || w.inflight.iter().any(|x| x.0 == q) {
+                        continue;
+                    }
+                    let qid = w.session[q].clone().unwrap();
+                    let l = w.cl.get(&mut w.jars[q], "/adf/")?;
+                    w.check_markers(q, &l, &what)?;
+                    if l.status == 200 {
+                        for x in l.json()?.as_array().ok_or("list is not an array")? {
+                            if x["name"] == json!(pname) {
+                                foreign_inflight_seen = true;
+                            }
+                            if x["running_tasks"].as_array().map(|a| !a.is_empty()).unwrap_or(true) {
+                                return Err(format!(
+                                    "{what}: while person {p} solves its problem {pname:?}, the listing of person {q} ({qid}) shows running tasks {} for its own problem {}",
+                                    x["running_tasks"], x["name"]
+                                ));
+                            }
+                        }
+                    }
+                    if w.accounts[&qid].problems.contains_key(&pname) {
+                        let g = w.cl.get(&mut w.jars[q], &format!("/adf/{pname}"))?;
+                        w.check_markers(q, &g, &what)?;
+                        if g.status == 200 && g.json()?["running_tasks"].as_array().map(|a| !a.is_empty()).unwrap_or(true) {
+                            return Err(format!(
+                                "{what}: while person {p} solves its problem {pname:?}, person {q} ({qid}) is told that a task is running on its own problem of the same name"
+                            ));
+                        }
+                    }
+                }
+            }
             Step::Register { u, w: pwi, .. } => {
                 // own passwords (or the empty one) only: a person never sets a password another person uses
                 let (un, pw) = (w.uname(*u), w.pw(p, if *pwi % 4 == 2 { 0 } else { *pwi }));
@@ -427,6 +500,15 @@ fn c17_check(c: &UserCase, st: &mut Stats) -> CheckResult {
                 }
                 if let Some(pr) = prob {
                     let v = r.json()?;
+                    if w.inflight.iter().any(|x| x.0 != p && x.1 == pname) {
+                        foreign_inflight_seen = true;
+                    }
+                    if v["running_tasks"].as_array().map(|a| !a.is_empty()).unwrap_or(true) {
+                        return Err(format!(
+                            "{what}: the response lists running tasks {} although this person has no task in flight (tasks in flight: {:?})",
+                            v["running_tasks"], w.inflight
+                        ));
+                    }
                     if v["code"] != json!(pr.code) || v["name"] != json!(pname) {
                         return Err(format!("{what}: returned problem is not the person's own ({})", v["code"]));
                     }
@@ -450,6 +532,17 @@ fn c17_check(c: &UserCase, st: &mut Stats) -> CheckResult {
                     }
                     Some(id) => {
                         let v = r.json()?;
+                        for x in v.as_array().ok_or("list is not an array")? {
+                            if w.inflight.iter().any(|f| f.0 != p && Some(f.1.as_str()) == x["name"].as_str()) {
+                                foreign_inflight_seen = true;
+                            }
+                            if x["running_tasks"].as_array().map(|a| !a.is_empty()).unwrap_or(true) {
+                                return Err(format!(
+                                    "{what}: the listing shows running tasks {} for problem {} although this person has no task in flight (tasks in flight: {:?})",
+                                    x["running_tasks"], x["name"], w.inflight
+                                ));
+                            }
+                        }
                         let got: BTreeMap<String, String> = v
                             .as_array()
                             .ok_or("list is not an array")?
@@ -480,6 +573,14 @@ fn c17_check(c: &UserCase, st: &mut Stats) -> CheckResult {
             }
         }
         w.check_db(&what)?;
+    }
+    // wait for everything still in flight
+    let rest = w.inflight.clone();
+    for (p, pname, s) in rest {
+        poll_slot(&w.cl, &mut w.jars[p], &pname, s.slot(), &json!({"type": "Solve", "content": s.name()}))?;
+    }
+    if foreign_inflight_seen {
+        st.label("get/list_same_name_while_other_person_solves");
     }
     st.count("http_histories", 1);
     st.count("steps", c.steps.len() as u64);
@@ -512,6 +613,7 @@ fn step_strategy() -> BoxedStrategy<Step> {
         3 => (p(), n()).prop_map(|(p, name)| Step::Get { p, name }),
         3 => p().prop_map(|p| Step::List { p }),
         2 => (p(), n()).prop_map(|(p, name)| Step::DeleteProblem { p, name }),
+        2 => (p(), n()).prop_map(|(p, name)| Step::SlowSolve { p, name }),
     ]
     .boxed()
 }
@@ -530,7 +632,7 @@ pub fn c17(tier: Tier) -> PropSpec {
                per-person marker in every problem code must never appear in a response to another person. After EVERY step the stub \
                database is inspected: every problem document belongs to its model owner's current account name; stored credentials \
                are absent (temporary) or argon2 PHC strings containing no plaintext password, with a never-seen-before salt. \
-               Interleaving is at request granularity. Non-trivial: two persons own problems with the same name, or a rename / \
+               Interleaving is at request granularity, plus long-running solve tasks left in flight while other persons act (no response to a person without a task in flight may list a running task). Non-trivial: two persons own problems with the same name, or a rename / \
                account deletion is followed by another person's request.",
         assumptions: vec![
             "each person uses passwords no other person uses, so a session identity always denotes an account the person owns (shared accounts / stale cookies are outside this check)",
